@@ -41,7 +41,7 @@ CFG = {
                   "textinput_refines(_clustered) (every Update/SetContent/Draw call returns - no index panic, no hang - equals the ideal operation, "
                   "content stays the segmentation of its text), clustered_editor_merge_free_instance (applyC with the never-merging segmentation is apply), draw_terminates, textinput_cursor_column and textinput_cells_fit (while prompt + "
                   "text + scrolloff fit, whatever the old offset: the cells written are exactly the prompt then the text's graphemes - or the mask - "
-                  "each at the column = display width before it, no truncator). Gen theorems: case labels of Update's switch, default-arm guards, "
+                  "each at the column = display width before it, no truncator); for every window width: textinput_draw_offset_bounds (0 <= offset <= cursor after Draw) and textinput_cells_in_window (no cell outside the window). Gen theorems: case labels of Update's switch, default-arm guards, "
                   "scroll-loop condition, scrolloff, the if-chain of HandleEvent, and (facts_*_bodies) for every modelled function all writes to "
                   "receiver fields, receiver calls, returns and loops in full, extracted from the source on every run, equal what the models "
                   "transcribe. F46, F47, F117 (round 1) and F217, F317, F417 (round 2) were real violations, fixed in /repo (one commit each).",
